@@ -5,6 +5,7 @@ CONSTANTS
   Timeouts = {0, 2}
   AtomicEffect = FALSE
   MaxLocks = 4
+  GiveUp = FALSE
 INVARIANTS MutualExclusion
 
 CHECK_DEADLOCK FALSE
